@@ -130,6 +130,35 @@ def build_model(prop):
     return True, exe, out + out2
 
 
+def source_fingerprints(prop):
+    """Hashes (comments, layout and verif hook lines removed) of the functions and package-level values of /repo that
+    the model of [prop] mirrors (lib/anchors.json, written by tools/make_anchors.py), compared with the current tree."""
+    out = {'anchored': 0, 'changed': [], 'available': False}
+    try:
+        anchors = json.load(open(os.path.join(ROOT, 'lib', 'anchors.json')))
+        exe = os.path.join(BUILD, 'fingerprint')
+        src = os.path.join(ROOT, 'tools', 'fingerprint')
+        if not os.path.exists(exe) or os.path.getmtime(exe) < os.path.getmtime(os.path.join(src, 'main.go')):
+            with Lock('fingerprint.lock'):
+                rc, log = sh(['go', 'build', '-o', exe, '.'], cwd=src, env=GOENV, timeout=300)
+            if rc != 0:
+                return out
+        rc, txt = sh([exe, REPO], timeout=120)
+        if rc != 0:
+            return out
+        cur = json.loads(txt[txt.index('{'):])
+        want = anchors['props'].get(prop, {}).get('anchored', {})
+        out.update({'anchored': len(want), 'available': True, 'baseline_commit': anchors.get('repo_commit', '')[:12]})
+        for k, h in sorted(want.items()):
+            if k not in cur:
+                out['changed'].append(k + ' (gone)')
+            elif cur[k]['hash'] != h:
+                out['changed'].append(k)
+    except Exception as e:       # the fingerprint tie is an addition: its absence must not break a check
+        out['error'] = str(e)[:200]
+    return out
+
+
 def build_harness(race=False):
     """Build the Go harness against /repo's working tree (-tags verif); with race=True under the race detector."""
     exe = os.path.join(BUILD, 'harness-race' if race else 'harness')
@@ -314,6 +343,14 @@ def main(argv):
     if not okh:
         problems.append({'what': 'harness does not build against /repo (hooks or API changed)', 'log': hlog[-3000:]})
 
+    # (c) source fingerprints: is the text of the functions the model mirrors still the text it was validated against?
+    fpr = source_fingerprints(prop)
+    if fpr.get('changed') and not os.environ.get('VERIF_NO_FINGERPRINT'):
+        problems.append({'what': 'the source of %d function(s) the model of %s mirrors is no longer the text the model and its '
+                                 'oracles were validated against: %s' % (len(fpr['changed']), prop, ', '.join(fpr['changed'][:12])),
+                         'functions': fpr['changed'],
+                         'log': 'correspondence (model <-> these functions) no longer checked; baseline: lib/anchors.json @ %s' % fpr.get('baseline_commit', '?')})
+
     hname = cfg.get('harness', prop.lower())
     state = {'stats': {}, 'n_eval': 0, 'n_nt': 0, 'n_unsup': 0, 'distinct_nt': set(), 'samples': [],
              'unsup_reasons': {}, 'agree': []}
@@ -478,6 +515,8 @@ def main(argv):
             'axioms_reported': axioms,
             'coqchk': coqchk if coqchk is not None else 'not run in this tier (thorough tier runs coqchk -o on the property file)',
             'escalated_search': searched,
+            'source_fingerprints': {'functions_anchored': fpr.get('anchored', 0), 'changed': fpr.get('changed', []),
+                                    'available': fpr.get('available', False), 'baseline_commit': fpr.get('baseline_commit', '')},
             'in_coq_evaluations': (incoq or {}).get('n', 0),
             'traces_validated_against_impl': n_eval if cfg.get('traces') else 0,
             'exhaustive': False,
